@@ -25,7 +25,7 @@ LEVEL_TEXT = ("Each enumerated configuration is decided for all inputs (operator
               "coordinate sets are a finite family of representatives of an uncountable domain, hence exploration: "
               "bounded-exhaustive over the listed instances only.")
 LEVEL_NOTE = ("tau = 3% at the defaults and 0.3% at (oversamp 2, width 4) are the property's figures; for the other "
-              "(oversamp, width) pairs tau is 2.5x the worst error measured on the pinned tree (regression baseline, "
+              "(oversamp, width) pairs - including the non-integer widths 3.5 and 4.5 - tau is 2.5x the worst error measured on the pinned tree (regression baseline, "
               "vf/ref/nufft_tau.json), not a specification.")
 RULE = ("full product of shapes x coordinate families x (oversamp, width); one case = one configuration; non-trivial = at "
         "least one transform axis longer than 1 and >= 2 coordinates")
@@ -34,7 +34,7 @@ ASSUMPTIONS = ["operator-norm relative error as the accuracy measure", "adjoint 
                "legitimately enter or leave the window under a 1-ulp change"]
 CHUNK = 16
 OS = (1.25, 1.375, 1.5, 1.75, 2)
-WD = (3, 4, 5, 6)
+WD = (3, 4, 5, 6, 3.5, 4.5)
 TAU_FILE = os.path.join(os.path.dirname(os.path.dirname(os.path.abspath(__file__))), "vf", "ref", "nufft_tau.json")
 
 
@@ -60,7 +60,7 @@ def gen_cases(tier, seed):
     for grid in (GRIDS_T if T else GRIDS_Q):
         for fam in FAMS:
             for osf, w in itertools.product(OS, WD):
-                if not T and (osf, w) not in ((1.25, 4), (2, 4), (1.5, 3), (1.375, 5)) and fam in ("dense", "shifted", "outside") and len(grid) > 1:
+                if not T and (osf, w) not in ((1.25, 4), (2, 4), (1.5, 3), (1.375, 5), (1.25, 4.5), (2, 3.5)) and fam in ("dense", "shifted", "outside") and len(grid) > 1:
                     continue
                 for batch in ([], [2]):
                     if batch and ((osf, w) not in ((1.25, 4), (2, 4)) or fam not in ("random", "half")):
